@@ -193,7 +193,14 @@ def run(ctx):
         if isinstance(f.node, ast.Lambda):
             continue
         for loop in [n for n in walk_local(f.node) if isinstance(n, ast.While)]:
-            stmts = [s for s in loop.body if isinstance(s, ast.Assign) and isinstance(s.value, ast.Call) and any(isinstance(c, ast.Call) and isinstance(c.func, ast.Attribute) and c.func.attr == 'limit' for c in ast.walk(s.value))]
+            # a paging loop = a while loop that builds a SELECT whose WHERE mentions a local that the loop body itself updates
+            assigned_in_loop = {t.id for s in ast.walk(loop) if isinstance(s, ast.Assign) for t in s.targets if isinstance(t, ast.Name)}
+            stmts = []
+            for s in loop.body:
+                if isinstance(s, ast.Assign) and isinstance(s.value, ast.Call):
+                    inf0 = sql_statement(prog, s.value, f, s.lineno)
+                    if inf0 and inf0.get('op') == 'SELECT' and any({x.id for x in ast.walk(ast.parse(w, mode='eval')) if isinstance(x, ast.Name)} & assigned_in_loop for w in inf0['where']):
+                        stmts.append(s)
             if not stmts:
                 continue
             npage += 1
@@ -209,6 +216,8 @@ def run(ctx):
                     pkvar = e.comparators[0].id
             if not okw:
                 probs.append(f'the page filter is not `id > <last seen id>` (strict): {where}')
+            elif len(where) != 1:
+                probs.append(f'the page is bounded by a further filter besides `id > {pkvar}` ({where}): a window of primary-key values can be empty although later rows exist, so the loop stops early')
             if not info or [o.split('.')[-1] for o in info['order_by']] != ['id']:
                 probs.append(f'pages are not ORDER BY id ({info["order_by"] if info else None})')
             if not info or not info['limit']:
